@@ -106,7 +106,8 @@ def random_interval(rng, quick, calls=None):
     return GB.BatchScenario(cls="interval", mode="interval", d=d, n_inner=rng.choice([1, 2]),
                             interval=rng.choice([1, 2, 3, 4]), storage_len=rng.choice([1, 2, 3, 4]),
                             model_seed=rng.randrange(10 ** 6), rows=rows, calls=cl, seed=rng.randrange(2 ** 31),
-                            names=rng.choice(["idx", "str"]), nlab=rng.choice([1, 1, 2, 3]), loss_object=rng.random() < 0.25)
+                            names=rng.choice(["idx", "str"]), nlab=rng.choice([1, 1, 2, 3]), loss_object=rng.random() < 0.25,
+                            imputer_kind=rng.choice([None, None, "product"]), foreign=rng.random() < 0.3)
 
 
 def float_checks(ctx, traces, scenarios, wanted):
